@@ -43,24 +43,25 @@ Warm == CASE WarmName = "none" -> <<>>
           [] WarmName = "life2" -> <<UpE("N2"), UpE("N3"), UpE("N1"), MAnnE(Mem(0, "def", 0)), Ev("MEor"),
                                     AddVrfE(V1a), Ev("CeUp"), AddVrfE(V2a), ApiAddE("v2", 1),
                                     VAnnE(PRoute({"rt1"}, 1, 200))>>
+          [] WarmName = "twin" -> <<UpE("N2"), UpE("N1"), MAnnE(Mem(0, "def", 0)), Ev("MEor"), AddVrfE(V1a), AddVrfE(V2d)>>
           [] WarmName = "all"  -> <<UpE("N2"), UpE("N1"), AddVrfE(V1a), Ev("CeUp"), AddVrfE(V2a),
                                     VAnnE(VRoute("k1", {"rt1", "rt2"}, 1)), MAnnE(Mem(65000, "rt2", 0)), Ev("MEor")>>
 
 (* alphabets *)
 RtSets  == CASE Alpha = "small" -> {{}, {"rt1"}, {"rt1", "rt2"}, {"rt3"}}
-             [] Alpha \in {"coll", "life"} -> {{"rt1"}, {"rt3"}}
+             [] Alpha \in {"coll", "life", "twin"} -> {{"rt1"}, {"rt3"}}
              [] Alpha \in {"mem", "idx"} -> {{"rt1"}}
              [] OTHER -> RtSetsAll
-Small   == Alpha \in {"small", "coll", "life", "mem", "idx"}
+Small   == Alpha \in {"small", "coll", "life", "mem", "idx", "twin"}
 PEon    == Alpha \in {"full", "life"}            \* the iBGP PE N3 takes part
 LpSet   == {200, 50}
 Tags    == IF Small THEN {1} ELSE {1, 2}
 MemAs   == IF Alpha = "mem" THEN {65000, 65009} ELSE IF Small THEN {65000} ELSE {65000, 65009}
 MemRts  == IF Alpha = "mem" THEN {"rt1", "def"} ELSE IF Alpha = "idx" THEN {"rt1"} ELSE IF Small THEN {"rt1", "rt2", "def"} ELSE RTs \cup {"def"}
 MemIds  == IF AddPath THEN {1, 2} ELSE {0}
-VrfPool == IF Alpha = "life" THEN {V2a, V2c} ELSE IF Small THEN {V1a, V2a} ELSE VrfPoolAll
+VrfPool == IF Alpha = "life" THEN {V2a, V2c} ELSE IF Alpha = "twin" THEN {V1a, V2d} ELSE IF Small THEN {V1a, V2a} ELSE VrfPoolAll
 TickDs  == IF Small THEN {5} ELSE {1, 2, 5}
-KSlots  == CASE Alpha \in {"small", "mem", "idx"} -> {"k1"} [] Alpha = "coll" -> {"k1", "k3"} [] Alpha = "life" -> {"k4"} [] OTHER -> Slots
+KSlots  == CASE Alpha \in {"small", "mem", "idx", "twin"} -> {"k1"} [] Alpha = "coll" -> {"k1", "k3"} [] Alpha = "life" -> {"k4"} [] OTHER -> Slots
 (* Only: restriction of the free steps to some event kinds ({} = all kinds) *)
 On(k)   == Only = {} \/ k \in Only
 
